@@ -37,6 +37,9 @@ CHECKS["C14"]=dict(level="exploration", design="DESIGN.md §3 C14", technique="r
 CHECKS["C18"]=dict(level="exploration", design="DESIGN.md §3 C18", technique="runtime monitoring: cross-codec differential (fast hand-written codec vs protobuf runtime / vtproto) on generated messages; workload repeated under checkptr and ASan builds",
    text="On all generated cached-output maps and store contents the fast encoder's bytes decoded with the standard decoder to the same content and vice versa, every marshaller read back what it wrote, and reported sizes were exact; no checkptr/ASan report.",
    note="Cross-decoder directions use valid UTF-8 (schema restriction of protobuf string); sanitizer silence is not memory safety.")
+CHECKS["C07"]=dict(level="fault_enumeration", design="DESIGN.md §3 C07", technique="runtime monitoring with fault enumeration: every subset of the cache files of a golden run (incl. partial files from stand-alone jobs, truncated temp siblings) restored and the request re-run; differential oracle REF-LINEAR + cache auditor; interruption (cancel after k-th message) then re-run",
+   text="For the enumerated universes EVERY subset of cache files was restored and the request re-run: it completed with the reference outputs and left only files that decode to the reference content; PRNG subsets of larger universes, shifted requests and interrupted-then-re-run requests likewise.",
+   note="Atomic file writes assumed (dstore temp+rename), half-written files modelled by temp siblings; requests of the recorded finding shape C05/stage-index-shift are not generated.")
 NOT_YET = {}
 def main():
     checks=[]
